@@ -67,7 +67,7 @@ impl Op {
 /// one call alone in a fresh process
 pub fn fresh(c: &PtCase) -> Option<R> {
     let exe = std::env::current_exe().ok()?;
-    let out = std::process::Command::new(exe).args(["single", &serde_json::to_string(c).unwrap()]).output().ok()?;
+    let out = std::process::Command::new(exe).args(["single", &c.to_value().to_string()]).output().ok()?;
     let text = String::from_utf8_lossy(&out.stdout).to_string();
     let line = text.lines().find_map(|l| l.strip_prefix("RESULT "))?;
     serde_json::from_str::<R>(line).ok()
